@@ -33,6 +33,10 @@ Inductive ev :=
 | EO (kid : N) (ctr : N)  (* another genuinely sealed frame: key 1 = the opposite direction,
                              key 0 = same direction (the handshake's AuthSig frame), sealed
                              under counter ctr *)
+| EF (ctr : N) (hdr : N)  (* a frame sealed by the harness with the writer's own AEAD under
+                             counter ctr whose plaintext is the 4-byte length header hdr
+                             followed by zeros (a peer that holds the keys but does not use
+                             Write); only used with hdr > dataMaxSize *)
 | EJ                      (* 1044 bytes that no Seal call produced (edited, random, misaligned) *)
 | EE (len : Z).           (* fewer than 1044 bytes, then EOF *)
 
@@ -60,14 +64,15 @@ Inductive case :=
    third party's key (own signature), 3 secp256k1 key, 4 signature with a flipped bit,
    5 sealed frame edited in transit, 6 nothing (EOF), 7 sealed garbage, 8 sealed under the
    keys of another session (spliced), 9 claims the victim's own key (own signature).
-   impl: 0 accepted / 1 failed before sending its AuthSig frame / 2 failed after; whether
+   impl: 0 accepted / 1 failed before trying to read the AuthSig message / 2 failed later; whether
    RemotePubKey() is the key the peer claimed *)
 | CHandshake (eph : N) (ephlen : Z) (auth : N) (res_i : N) (rem_is_claimed : bool)
 (* transport.upgrade: identities are small numbers.  key: identity whose key authenticated the
    connection (None: secret connection failed); dialed: identity dialled; ni: identity in the
    NodeInfo the peer sent (None: exchange failed); valid: NodeInfo otherwise valid; own;
-   compat.  impl: 0 ok, 1.. the up_err classes; on ok, whether the ids the transport reports
-   are those of [key] *)
+   compat.  impl: 0 ok, 1 auth failure without an id (secret connection or NodeInfo exchange
+   failed), 2 auth failure with an id (dialled-id or NodeInfo-id mismatch), 4 NodeInfo invalid,
+   6 self, 7 incompatible; on ok, whether the ids the transport reports are those of [key] *)
 | CUpgrade (key : option N) (dialed : option N) (ni : option N) (valid : bool) (own : N)
            (compat : bool) (res_i : N) (ids_ok : bool).
 
@@ -97,6 +102,7 @@ Definition ev_cipher (frames : list scipher) (e : ev) : conn_ev scipher :=
   match e with
   | EG i => match nth_error frames i with Some c => EvBlock c | None => EvBlock Junk end
   | EO kid ctr => EvBlock (Sym kid (nonce_of_ctr ctr) [])
+  | EF ctr hdr => EvBlock (Sym 0%N (nonce_of_ctr ctr) (le_enc 4 hdr ++ repeat 0%N data_max_size))
   | EJ => EvBlock Junk
   | EE _ => EvErr
   end.
@@ -225,8 +231,8 @@ Definition hs_script_honest (eph : N) (ephlen : Z) (auth : N) : bool :=
 (* ---- upgrade *)
 Definition up_code (r : up_result) : N :=
   match r with
-  | UpOk _ _ => 0 | UpErr UpSecretConn => 1 | UpErr UpDialedID => 2 | UpErr UpHandshake => 3
-  | UpErr UpNodeInfoInvalid => 4 | UpErr UpNodeInfoID => 5 | UpErr UpSelf => 6
+  | UpOk _ _ => 0 | UpErr UpSecretConn => 1 | UpErr UpDialedID => 2 | UpErr UpHandshake => 1
+  | UpErr UpNodeInfoInvalid => 4 | UpErr UpNodeInfoID => 2 | UpErr UpSelf => 6
   | UpErr UpIncompatible => 7
   end%N.
 Definition idb (n : N) : bytes := [n].
